@@ -189,8 +189,10 @@ namespace c18
     return pts;
   }
 
-  /// tolerance factor: error <= tol_factor * eps(DT) * scale.  Measured ratios (C18_CALIB, thorough tier, all
-  /// shapes/elements/distortions) stay below cfac/40; wrong operators give ratios >= 1e-3/eps.
+  /// tolerance factor: error <= tol_factor * eps(DT) * scale.  Measured ratios err/(eps*scale) (C18_CALIB, thorough tier, all
+  /// shapes/distortions/permutations, 262k cases): lagrange1 116, lagrange2 195, lagrange3 387, bernstein2 2350, discontinuous0 48,
+  /// discontinuous1 249 (P1 in real coordinates on translated, sheared cells), crouzeix-raviart 118, rannacher-turek 236,
+  /// q1tbnp 307 - all below cfac/50; wrong operators give ratios >= 1e-3/eps.
   inline long double tol_factor(const ElemMeta& em) { return (long double)em.cfac; }
 
   // ------------------------------------------------------------------------------------------------
@@ -482,7 +484,7 @@ namespace c18
       Mat M1, Mn; Vec t1, tn;
       run(1, M1, t1);
       // inverse mapping (Newton, tolerance eps^0.9 on the step) limits the accuracy of the unmapped points
-      const long double tolm = std::max(tf, 1e4L) * eps * pmax;
+      const long double tolm = std::max(tf, 1e5L) * eps * pmax; // measured ratios up to 1.4e3
       long double worst = 0;
       for(Index k = 0; k < P.used_elements(); ++k) { worst = std::max(worst, std::fabs((long double)M1.val()[k] - (long double)P.val()[k])); }
       calib(etag + " intermesh", worst / (eps * pmax));
